@@ -290,6 +290,10 @@ def run_variant(v):
             ok = code == 1 and (not v.get("rule") or any(r.startswith(v["rule"]) for r in fired))
             if not ok and code == 2 and v.get("accept_inconclusive"):
                 ok = True
+        elif v["expect"] == "undecided":
+            # the property holds on this variant, but in an idiom the rules do not read: the honest outcome is "inconclusive"
+            # (exit 2, no VIOLATION line) — never an alarm
+            ok = code in (0, 2)
         else:
             ok = code == 0
         return dict(id=v["id"], prop=v["prop"], expect=v["expect"], outcome="ok" if ok else "FAILED", code=code,
@@ -301,7 +305,7 @@ def run_variant(v):
 
 
 def run_catalogue(prop=None, jobs=None, ids=None):
-    todo = [v for v in VARIANTS if (prop is None or v["prop"] == prop) and (ids is None or v["id"] in ids)]
+    todo = [v for v in VARIANTS if (prop is None or v["prop"] == prop) and (ids is None or v["id"] in ids or any(i.endswith("*") and v["id"].startswith(i[:-1]) for i in ids))]
     jobs = jobs or min(16, os.cpu_count() or 4)
     if jobs > 1 and len(todo) > 1:
         with ProcessPoolExecutor(max_workers=jobs) as ex:
@@ -315,6 +319,7 @@ def summarise(res):
     out = {"applied": sum(1 for r in res if r["outcome"] != "skipped"),
            "detected": sum(1 for r in res if r["expect"] == "fire" and r["outcome"] == "ok"),
            "silent": sum(1 for r in res if r["expect"] == "silent" and r["outcome"] == "ok"),
+           "undecided_not_alarmed": sum(1 for r in res if r["expect"] == "undecided" and r["outcome"] == "ok"),
            "skipped": sum(1 for r in res if r["outcome"] == "skipped"),
            "failed": [r["id"] for r in res if r["outcome"] == "FAILED"]}
     return out
